@@ -288,6 +288,21 @@ def flatten_extends(
 
         c = flatten_extends(c, extends.class_modification, parent=c.parent)
 
+        # Inherited elements are looked up in the scope of the base class, not
+        # in that of the class extending it (spec 3.5 section 7.1). Types that
+        # are local classes of the base stay relative, so that they can still be
+        # redeclared; all others are made absolute before the merge.
+        for sym in c.symbols.values():
+            if (
+                isinstance(sym.type, ast.ComponentRef)
+                and sym.type.name not in ast.Class.BUILTIN
+                and sym.type.name not in c.classes
+            ):
+                try:
+                    sym.type = c.find_class(sym.type, copy=False).full_reference()
+                except (KeyError, ast.ClassNotFoundError):
+                    pass
+
         # Imports are not inherited (spec 3.5 sections 5.3.1 and 7.1)
         # extended_orig_class.imports.update(c.imports)
         extended_orig_class.classes.update(c.classes)
